@@ -510,6 +510,9 @@ def py_eval(e, env):
         if e[1] == "ite":
             t = py_eval(e[2][0], env)
             return py_eval(e[2][1], env) if t != 0 else py_eval(e[2][2], env)
+        if e[1] == "signExt":
+            # arguments are not evaluated: func_sign_ext fails at once
+            raise NotImplementedError("signExt")
         raise KeyError(e[1])
     op, l, r = e[1], py_eval(e[2], env), py_eval(e[3], env)
     if op == "+":
@@ -637,6 +640,8 @@ def c08_cases(seed, tier):
             exp = [py_eval(e, env)]
         except ZeroDivisionError:
             exp = ["err"]
+        except NotImplementedError:
+            exp = ["err-ni"]
         cases.append({"id": "c08-tree-%d" % i, "kind": "run", "src": "\n".join(lines) + "\n", "sigs": sigs, "layout": [1], "table": [["1"]],
                       "echo": 0, "wdefault": 0, "faults": [], "max": 10, "seed": 1, "c08": exp})
     return cases
@@ -653,6 +658,10 @@ def c08_oracle(case, trace):
         if want == "err":
             if not any("DivisionByZero" in it or "ivision" in it for it in items):
                 yield "division by zero did not give an error item (items: %s)" % items[:1]
+            return
+        if want == "err-ni":
+            if not any("FunctionNotImplemented" in it for it in items):
+                yield "evaluating signExt did not give a FunctionNotImplemented error item (items: %s)" % items[:1]
             return
         if k >= len(rows):
             yield "row %d missing (expected value %d)" % (k, want)
